@@ -45,7 +45,7 @@ pub fn spaces(tier: Tier) -> Vec<Space<'static>> {
             .map(|i| {
                 let mut r = vec![0u64; w];
                 for j in 0..n {
-                    if jsonb::contains(&d.bytes[i], &d.bytes[j]) {
+                    if guard(|| jsonb::contains(&d.bytes[i], &d.bytes[j])).unwrap_or(false) {
                         r[j / 64] |= 1 << (j % 64);
                     }
                 }
